@@ -1384,3 +1384,41 @@ fn deferred_capture_cases(f: &mut dyn FnMut(Case)) {
         }
     }
 }
+
+// ---- (k) constructs that are only valid in one syntactic position (map key rebinds / map patterns, type
+//          hints, meta keys, match / switch arms, argument lists, ellipses, wildcards) placed in every other
+//          position, next to nested assignments (class: compile_node `unreachable!()` reached from source) ------
+
+fn misplaced_construct_cases(thorough: bool, f: &mut dyn FnMut(Case)) {
+    let api = vec!["compile".to_string(), "format".to_string(), "display".to_string(), "gen:misplaced-construct".to_string()];
+    let special = [
+        "{a as b}", "{a as b, c}", "{'k' as b}", "{a as b} = m", "let {a as b}: Map = m", "{a, b}", "{a: 1, b as c}", "{@+ as p}", "{a as _}",
+        "x: Number", "let y: String = 's'", "|p: Number| p", "|{a as b}| b", "|(p, q), [r, s...]| p", "@main", "@meta k", "@+", "export @main = || 0",
+        "...", "xs...", "_", "_x", "1 then 2", "else 3", "(a as b)", "a as b", "then", "for {a as b} in ms", "match m\n  {a as b} then b", "match m\n  {a as b} if b then b\n  else 0",
+        "switch\n  a then {a as b}", "try\n  {a as b}\ncatch {e as f}\n  f", "from m import a as b", "import m as {a}", "|| {a as b}", "yield {a as b}", "return {a as b}", "throw {a as b}",
+    ];
+    let plain = ["(x = 1)", "x = 1", "(x, y = 1, 2)", "x += 1", "(x = y = 2)", "m = {a: 1}", "(m.a = 2)", "(xs[0] = 1)", "f(x = 1)", "[x = 1]", "1", "m", "f()", "(|| x = 1)()", "if c then x = 1", "(export z = 1)"];
+    let wrappers = [
+        "A, B", "B, A", "[A, B]", "(A, B)", "{k: A, j: B}", "f(A, B)", "f A, B", "A + B", "A and B", "if A then B", "if B then A else A", "'{A} {B}'", "A\nB", "B\nA", "return A, B", "z = A, B",
+        "A, B = m, 1", "for q in A, B\n  q", "match A, B\n  else 0", "(A) = (B)", "[A, [B, (A)]]", "g = |v = A| B", "A >> B", "not A or B", "A.b = B", "A[B]", "A(B)", "x = if c then A else B",
+        "while A\n  B", "until B\n  A", "loop\n  A\n  break B", "try\n  A\nfinally\n  B", "debug A, B", "assert A, B", "A ? B : A",
+    ];
+    let mut n = 0usize;
+    for a in special {
+        for b in plain.iter().chain(special.iter()) {
+            for w in wrappers {
+                n += 1;
+                // complete for special x plain; special x special: complete in thorough, every 5th in quick
+                let both_special = special.contains(b);
+                if both_special && !thorough && n % 5 != 0 {
+                    continue;
+                }
+                let mut text = w.replace('A', "\u{1}").replace('B', "\u{2}").replace('\u{1}', a).replace('\u{2}', b);
+                text.push_str("\n0\n");
+                f(Case { kind: 'C', text: text.clone(), group: "misplaced-construct", apis: api.clone() });
+                // also run when it happens to compile
+                f(Case { kind: 'R', text: format!("m = {{a: 1, b: 2}}\nms = (m, m)\nc = true\nf = |args...| size args\nxs = [1, 2]\n{}", text), group: "misplaced-construct", apis: api.clone() });
+            }
+        }
+    }
+}
